@@ -23,7 +23,10 @@ CONSTANTS MaxCnt,        \* largest device count of a request
           DupCheck,      \* isValid skips an add for a pod already in the allocateSet of the type
           KnownCheck,    \* isValid skips a delete for a pod that is not in the allocateSet of the type
           ResetFree,     \* resetDeviceFree is called after deviceUsed changed
-          CmpOK          \* the allocator compares request <= free (FALSE: reversed)
+          CmpOK,         \* the allocator compares request <= free (FALSE: reversed)
+          ByteReqs,      \* GPU memory requests in bytes (with 10 percent of the cores); {} : percent requests only
+          DerivedCheck   \* the allocator also requires the DERIVED GPU memory amount to be free (FALSE = the code as read,
+                         \* TRUE = proposed_fixes/C07); only matters when ByteReqs # {}
 
 VARIABLES usedL,   \* deviceUsed      [Types -> [Minors -> [ResOf(t) -> Nat]]]
           freeL,   \* deviceFree
@@ -71,12 +74,15 @@ Becomes(L) == usedL' = L.used /\ freeL' = L.free /\ setL' = L.set
 \* defaultAllocateDevices on the ledger free: required filter, devices whose free is all zero skipped,
 \* LessThanOrEqual(request, free); order = preferred first, then minor (no scorer); the first cnt are taken
 IsZeroL(t, m) == \A r \in ResOf(t) : freeL[t][m][r] = 0
-GoodL(t, req, required) == {m \in MayUse(t, required) : ~IsZeroL(t, m) /\ \A r \in DOMAIN req :
-                               IF CmpOK THEN req[r] <= freeL[t][m][r] ELSE req[r] >= freeL[t][m][r]}
+GoodL(t, req, required) == {m \in MayUse(t, required) :
+                               /\ ~IsZeroL(t, m)
+                               /\ \A r \in DOMAIN req : IF CmpOK THEN req[r] <= freeL[t][m][r] ELSE req[r] >= freeL[t][m][r]
+                               /\ DerivedCheck => \A r \in DOMAIN EffReq(t, m, req) : EffReq(t, m, req)[r] <= freeL[t][m][r]}
 Rank(m, pref) == IF m \in pref THEN m ELSE m + 1000
 Granted(t, m, req) == [r \in ResOf(t) |->
     IF r \in DOMAIN req THEN req[r]
     ELSE IF t = "gpu" /\ r = "mem" /\ "ratio" \in DOMAIN req THEN (req["ratio"] * total[t][m]["mem"]) \div 100   \* fillGPUTotalMem
+    ELSE IF t = "gpu" /\ r = "ratio" /\ "mem" \in DOMAIN req /\ total[t][m]["mem"] > 0 THEN (req["mem"] * 100) \div total[t][m]["mem"]
     ELSE 0]
 AllocImpl(t, req, cnt, required, pref) ==
   LET s == SetToSortSeq(GoodL(t, req, required), LAMBDA a, b : Rank(a, pref) < Rank(b, pref))
@@ -84,7 +90,8 @@ AllocImpl(t, req, cnt, required, pref) ==
      ELSE [ok |-> TRUE, result |-> (t :> [i \in 1..cnt |-> [m |-> s[i], res |-> Granted(t, s[i], req)]])]
 
 (******************************** actions ***********************************)
-ReqMenu(t) == IF t = "gpu" THEN {[core |-> a, ratio |-> a] : a \in Amounts} ELSE {[r \in ResOf(t) |-> a] : a \in Amounts}
+ReqMenu(t) == IF t = "gpu" THEN {[core |-> a, ratio |-> a] : a \in Amounts} \cup {[core |-> 10, mem |-> b] : b \in ByteReqs}
+              ELSE {[r \in ResOf(t) |-> a] : a \in Amounts}
 \* a concrete allocation as an informer event may carry it (one device, one menu amount; GPU memory as for a healthy GPU)
 ForeignMenu == {[t |-> t, m |-> m,
                  res |-> IF t = "gpu" THEN [core |-> a, ratio |-> a, mem |-> (a * GpuMem) \div 100] ELSE [r \in ResOf(t) |-> a]] :
